@@ -471,7 +471,7 @@ CLAIMED = {
 APPEND = {}
 EXTRA_TECH = {
  "C12": " Since the source-derivation round the run entry is source-derived as well: G12 compiles the tests, arithmetic and literals of run_sampling / _not_termination / execute_iteration / compute_evidence into Gen/RunEntrySrc.lean and Props/C12Source (25 theorems, rfl / decide for every scalar type) pins 13 model definitions (notTerm, contGuard, finalLogz, runLoop, entryBranch, prologue, runFull, ...); call order inside an iteration stays a skeleton table.",
- "C17": " Since the source-derivation round the StateManager model is source-derived: G22 compiles the bodies of 10 StateManager methods (which value is copied deep or shallow, which is stored as an alias, who receives it) into Gen/StateMgrSrc.lean, elaborated against the flat and the nested heap model; Props/C17Source (45 theorems) proves the step cases compute exactly those terms (numpy/copy semantics in Model/StateMgrPy.lean stay hand-written).",
+ "C17": " Since the source-derivation round the StateManager model is source-derived: G22 compiles the bodies of 10 StateManager methods (which value is copied deep or shallow, which is stored as an alias, who receives it) into Gen/StateMgrSrc.lean, elaborated against the flat and the nested heap model; Props/C17Source (45 theorems) proves the step cases compute exactly those terms (numpy/copy semantics in Model/StateMgrPy.lean stay hand-written; a call of the repository's field walker _deepcopy_array - the F41 repair - is compiled to the model's deepCopy, its text is pinned by C17_deepcopy_array_def and its depth is checked on record dtypes with sub-array-of-object fields every run).",
 }
 NOT_YET = {}
 props = [json.loads(l) for l in open(os.path.join(HERE, "properties.jsonl"))]
